@@ -62,15 +62,24 @@ def check_steady_pipeline(prog, rep, rule):
 
 def validators(prog):
     """(plain, extended): the functions of the driver module that turn formula strings into validated trees - found by what they
-    call (parse_and_minimize_hctl_formula / parse_and_minimize_extended_formula, public functions of the parser), not by name."""
+    call (parse_and_minimize_hctl_formula / parse_and_minimize_extended_formula, public functions of the parser), not by name.  With
+    the module's helpers inlined (a shared skeleton that receives the parser as a function value is seen through), the validator is the
+    innermost function whose pipeline contains the parser call: none of the module functions it calls contains it as well."""
     raw = terms.Engine(prog, inline=False)
+    eng = terms.Engine(prog, inline=True, hooks=E.Hooks([MC]))
     out = {False: None, True: None}
-    for f in prog.lib_fns():
-        if not f.path.startswith(MC) or "HctlTreeNode" not in str(f.ret):
-            continue
-        s = raw.summary(f)
-        for ext, callee in ((False, "parse_and_minimize_hctl_formula"), (True, "parse_and_minimize_extended_formula")):
-            if any(x.kind == "call" and x.is_call_to(callee) for x in s.all_sites()):
-                if out[ext] is None or len(f.path) < len(out[ext].path):
-                    out[ext] = f
+    fns = [f for f in prog.lib_fns() if f.path.startswith(MC)]
+    for ext, callee in ((False, "parse_and_minimize_hctl_formula"), (True, "parse_and_minimize_extended_formula")):
+        cands = []
+        for f in fns:
+            s = eng.summary(f)
+            if s is not None and any(x.kind == "call" and x.is_call_to(callee) for x in s.all_sites()):
+                cands.append(f)
+        inner = []
+        for f in cands:
+            callees = {prog.resolve_local(f.crate, x.callee) for x in raw.summary(f).sites if x.kind in ("call", "mcall") and isinstance(x.callee, str)}
+            if not any(g in callees for g in cands if g is not f):
+                inner.append(f)
+        inner.sort(key=lambda f: len(f.path))
+        out[ext] = inner[0] if inner else None
     return out[False], out[True]
